@@ -108,7 +108,8 @@ func zzVrfContains(hay, needle []byte) bool {
 
 func zzH_C04_vrf_transcript() {
 	curve = zzVrfCurve{}
-	params = &elliptic.CurveParams{Gx: big.NewInt(7), Gy: big.NewInt(8), N: new(big.Int).Lsh(big.NewInt(1), 255), BitSize: 256}
+	fieldP, _ := new(big.Int).SetString("fffffffffffffffffffffffffffffffffffffffffffffffffffffffefffffc2f", 16)
+	params = &elliptic.CurveParams{P: fieldP, Gx: big.NewInt(7), Gy: big.NewInt(8), N: new(big.Int).Lsh(big.NewInt(1), 255), BitSize: 256}
 	zzVrfTranscript = nil
 	m := zzverif.Bytes("message", 4)
 	proof := zzverif.Bytes("proof", 129)
@@ -121,6 +122,9 @@ func zzH_C04_vrf_transcript() {
 		return
 	}
 	zzverif.Reach("accepted")
+	// the output is sha256 of these 65 bytes: a second accepted encoding of the same point would
+	// be a second VRF output (seat count, priority) for the same key and message
+	zzverif.Assert(proof[64] == 4, "an accepted proof carries its VRF point in the one canonical (uncompressed, tag 0x04) encoding")
 	hx, hy := zzVrfH1(m)
 	zzverif.Assert(zzVrfContains(zzVrfTranscript, proof[64:129]), "the challenge covers the VRF point the output is derived from")
 	zzverif.Assert(zzVrfContains(zzVrfTranscript, zzVrfMarshal(nil, hx, hy)), "the challenge covers the message's curve point")
